@@ -407,6 +407,37 @@ func C19(p *Prog, r *Run) {
 			}
 			ms, ok := res.(*ssa.MakeSlice)
 			if !ok {
+				// a series built by appending one value per element of the list (c19AppendSeries): the value appended in
+				// the iteration for element i is entry i, and there is one entry per element
+				if as, _ := c19AppendSeries(fn, tm, e.res, e.list); as != nil {
+					okElem, nWanted := true, 0
+					var got []string
+					for _, el := range as.Elems {
+						if el.Zero {
+							continue // the element is left at 0: C19.9 decides whether rightly
+						}
+						for _, a := range c19ValueAlts(tm, el.Val) {
+							got = append(got, a.T.String())
+							if a.ZeroLeaf {
+								continue
+							}
+							nWanted++
+							same := false
+							a.T.Walk(func(x *Term) bool {
+								if x.Op == "elem" && x.Args[0].String() == e.list && len(x.Args) > 1 && x.Args[1].V == as.IV {
+									same = true
+								}
+								return true
+							})
+							if !isWanted(e, a.T) || !same {
+								okElem = false
+							}
+						}
+					}
+					r.Check(okElem && nWanted > 0, cons, p.Pos(fn.Pos()), "one value appended per element of "+e.list+": "+e.want,
+						fmt.Sprintf("%s (result %d): values appended %v; expected %s for every element", e.fn, e.res, got, e.want))
+					continue
+				}
 				r.Bad(cons, p.Pos(fn.Pos()), e.fn+" does not return a freshly made series")
 				continue
 			}
@@ -1058,6 +1089,18 @@ func C19(p *Prog, r *Run) {
 					why = append(why, w)
 				}
 			})
+			if k == 0 {
+				// the series is built by appending one value per element instead (robust_c19.go, c19AppendSeries)
+				as, w := c19AppendSeries(fn, tm, 0, e.list)
+				if as == nil {
+					why = append(why, "no element store, and the result is not a series appended element by element: "+w)
+				} else {
+					k++
+					if w := c19AppendedWhenDefined(tm, as, nillable); w != "" {
+						why = append(why, w)
+					}
+				}
+			}
 			n += k
 			r.Check(len(why) == 0 && k > 0, e.fn+".stored-iff-defined", p.Pos(fn.Pos()), "element i is stored in exactly the iterations in which its statistic is defined; every element of "+e.list+" is visited",
 				fmt.Sprintf("%s (%d element stores): %s", e.fn, k, strings.Join(why, "; ")))
@@ -1343,8 +1386,24 @@ func C19(p *Prog, r *Run) {
 			}
 			return out
 		}
-		elemValue := func(fn *ssa.Function, tm *Termer) []*Term {
-			var out []*Term
+		elemValue := func(fn *ssa.Function, tm *Termer, list string) (out []*Term) {
+			defer func() {
+				if len(out) > 0 {
+					return
+				}
+				// no element store: a series built by appending one value per element of the list (c19AppendSeries);
+				// its elements are the values appended (a 0 appended is an element left at 0: C19.9 decides when)
+				if as, _ := c19AppendSeries(fn, tm, 0, list); as != nil {
+					for _, e := range as.Elems {
+						if e.Zero {
+							continue
+						}
+						for _, a := range c19ValueAlts(tm, e.Val) {
+							out = append(out, a.T)
+						}
+					}
+				}
+			}()
 			Instrs(fn, func(_ *ssa.BasicBlock, _ int, in ssa.Instruction) {
 				if st, ok := in.(*ssa.Store); ok {
 					if ia, ok := st.Addr.(*ssa.IndexAddr); ok {
@@ -1427,7 +1486,7 @@ func C19(p *Prog, r *Run) {
 				return true, "true iff some generation has Solved"
 			}},
 			{"Experiment.EpochsPerTrial", func(fn *ssa.Function, tm *Termer) (bool, string) {
-				vs := elemValue(fn, tm)
+				vs := elemValue(fn, tm, "recv.Trials")
 				for _, v := range vs {
 					if !(strings.Contains(v.String(), "len(&recv.Trials[*].Generations)")) {
 						return false, "element is " + v.String() + ", expected len(trial.Generations)"
@@ -1436,7 +1495,7 @@ func C19(p *Prog, r *Run) {
 				return len(vs) > 0, "x[i] = len(trial.Generations)"
 			}},
 			{"Trial.Diversity", func(fn *ssa.Function, tm *Termer) (bool, string) {
-				vs := elemValue(fn, tm)
+				vs := elemValue(fn, tm, "recv.Generations")
 				for _, v := range vs {
 					if !(strings.Contains(v.String(), "recv.Generations[*].Diversity")) {
 						return false, "element is " + v.String() + ", expected generation.Diversity"
@@ -1445,7 +1504,7 @@ func C19(p *Prog, r *Run) {
 				return len(vs) > 0, "x[i] = generation.Diversity"
 			}},
 			{"Experiment.AvgDiversity", func(fn *ssa.Function, tm *Termer) (bool, string) {
-				vs := elemValue(fn, tm)
+				vs := elemValue(fn, tm, "recv.Trials")
 				for _, v := range vs {
 					if v.String() != "Floats.Mean(Trial.Diversity(&recv.Trials[*]))" {
 						return false, "element is " + v.String() + ", expected trial.Diversity().Mean()"
@@ -1471,7 +1530,7 @@ func C19(p *Prog, r *Run) {
 				return true, "best organism chosen by sorting a fresh slice of champions"
 			}},
 			{"Experiment.BestFitness", func(fn *ssa.Function, tm *Termer) (bool, string) {
-				vs := elemValue(fn, tm)
+				vs := elemValue(fn, tm, "recv.Trials")
 				for _, v := range vs {
 					if !(v.Op == "field" && v.Name == "Fitness" && strings.Contains(v.String(), "Trial.BestOrganism(&recv.Trials[*],false)#0")) {
 						return false, "element is " + v.String() + ", expected trial.BestOrganism(false).Fitness"
